@@ -40,15 +40,26 @@ def main() -> int:
             print("baseline: no junit produced")
             return 1
         passed = set()
+        why = {}
         for tc in ET.parse(junit).getroot().iter("testcase"):
-            bad = any(ch.tag in ("failure", "error", "skipped") for ch in tc)
+            bad = [ch for ch in tc if ch.tag in ("failure", "error", "skipped")]
             if not bad:
                 passed.add(f"{tc.get('classname')}::{tc.get('name')}")
+            else:
+                why[f"{tc.get('classname')}::{tc.get('name')}"] = (bad[0].get("message") or "")[:300] + " | " + (bad[0].text or "")[-600:]
     missing = [t for t in base["stable_pass"] if t not in passed]
     print(tail)
     print(f"baseline: stable_pass={len(base['stable_pass'])} passed_now={len(passed)} regressions={len(missing)}")
     for t in missing[:50]:
         print("  REGRESSION", t)
+    try:   # debugging aid only (git-ignored): which tests regressed in which tree
+        os.makedirs("/verif/out", exist_ok=True)
+        with open("/verif/out/baseline_regressions.log", "a") as fh:
+            fh.write(f"{repo} regressions={len(missing)} {missing[:50]}\n")
+            for t in missing[:10]:
+                fh.write(f"    {t}: {why.get(t, 'not run')!r}\n")
+    except OSError:
+        pass
     return 1 if missing else 0
 
 
